@@ -176,6 +176,36 @@ def faults(wb):
     return out
 
 
+def retitled(wb, style):
+    """a well-formed variant: the first pump tab that is not curve-limited gets a title with 'pump' NOT at its end ('Pump 1', 'Booster pump (spare)');
+    the pipe table refers to it by the new title. Returns None if there is no such tab."""
+    from openpyxl.utils import range_boundaries
+    w = clone_wb(wb)
+    for ws in w.worksheets:
+        if sheet_type(ws.title) != 'pump' or 'limited' not in ws.defined_names:
+            continue
+        lim = ws[ws.defined_names['limited'].attr_text.split('!')[1].replace('$', '')].value
+        if lim == 'curve':
+            continue
+        old = ws.title
+        new = style
+        if any(x.title.lower() == new.lower() for x in w.worksheets):
+            return None
+        ws.title = new
+        for nm, dn in list(ws.defined_names.items()):
+            dn.attr_text = "'" + new + "'!" + dn.attr_text.split('!')[1]
+        for pws in w.worksheets:
+            if 'pipeline' in pws.title.lower() and 'pipe_table' in pws.defined_names:
+                addr = pws.defined_names['pipe_table'].attr_text.split('!')[1].replace('$', '')
+                c0, r0, c1, r1 = range_boundaries(addr)
+                for r in range(r0 + 1, r1 + 1):
+                    v = pws.cell(row=r, column=c0).value
+                    if isinstance(v, str) and v.lower().removesuffix('pump') == old.lower().removesuffix('pump'):
+                        pws.cell(row=r, column=c0).value = new
+        return clone_wb(w)
+    return None
+
+
 def clone_wb(wb):
     import openpyxl
     buf = io.BytesIO()
